@@ -273,9 +273,14 @@ def _formats_sweep(ctx, P):
     rng = ctx.rng
     names = {0: "ebyte/decode_tcp", 1: "usb/decode_usb", 2: "yacht devices/decode_yacht_devices_string"}
     lengths = [0, 1, 5, 6, 7, 8, 12, 13, 14, 20, 21, 27, 43, 100, 222, 223]
-    for n in lengths + [rng.randrange(224) for _ in range(ctx.n(10, 120))]:
-        for kind in ("aa55", "55aa", "crlf", "ff", "zero", "rand"):
-            s = rng.randrange(8)
+    todo = [(n, kind, None) for n in lengths + [rng.randrange(224) for _ in range(ctx.n(10, 120))]
+            for kind in ("aa55", "55aa", "crlf", "ff", "zero", "rand")]
+    # whole frames of 0xFF / 0x00 INCLUDING the counter byte: the last frame of the longest messages under counter 7
+    # (header byte 0xFF) and the first continuation frames under counter 0 (header byte 0x01..), every length that has a 32nd frame
+    todo += [(n, kind, sq) for n in range(217, 224) for kind in ("ff", "zero") for sq in (7, 0)]
+    for n, kind, forced in todo:
+        if True:
+            s = rng.randrange(8) if forced is None else forced
             key = (126720, 11, 22) if (n + s) % 2 else (130816, 11, 255)
             body = _content(rng, max(0, n - 2), kind)
             # the first two payload bytes carry the manufacturer / industry code the fallback definitions need
